@@ -9,7 +9,7 @@
 use super::h_traffic::short_id;
 use super::hworld::*;
 use crate::{core::Ctx, ident};
-use discv5::verif::{toolkit, HandlerIn, HandlerOut, NodeAddress, PacketKind, Request, RequestBody, Response, WhoAreYouRef};
+use discv5::verif::{toolkit, HandlerIn, HandlerOut, NodeAddress, PacketKind, Request, RequestBody, Response, ResponseBody, WhoAreYouRef};
 use discv5::{
     enr::{CombinedKey, CombinedPublicKey, EnrKey, NodeId},
     verif::{ConnectionDirection, NodeContact},
@@ -30,20 +30,20 @@ pub enum X {
 
 #[derive(Clone, Debug)]
 pub struct Plan {
-    victim: usize,
-    claimed: usize,
+    pub victim: usize,
+    pub claimed: usize,
     /// source address: 0 = attacker's own, 1 = the claimed node's address (spoofed)
-    spoof_src: bool,
+    pub spoof_src: bool,
     /// 0 own record, 1 the claimed node's genuine record, 2 none, 3 own record advertising the claimed node's address
-    record: u32,
+    pub record: u32,
     /// seq of the attacker's record relative to the claimed node's: 0 lower, 1 equal, 2 higher
-    seq_rel: u32,
+    pub seq_rel: u32,
     /// 0 attacker key, 1 garbage signature, 2 replay of a recorded genuine signature of the claimed node
-    signer: u32,
-    bad_ephem: bool,
-    follow_up: bool,
+    pub signer: u32,
+    pub bad_ephem: bool,
+    pub follow_up: bool,
     /// the attacker handshakes under its own id (C12: record address vs. observed source)
-    as_self: bool,
+    pub as_self: bool,
 }
 
 fn rand_bytes(ctx: &mut Ctx, n: usize) -> Vec<u8> {
@@ -134,6 +134,11 @@ async fn c01_async(ctx: &mut Ctx) {
     if !x_running {
         w.crash(1);
     }
+    // a peer with a genuine key of its own that lies about *who it is* after an honest handshake: asked
+    // for its record (FINDNODE [0], the request a handler sends by itself to a contact dialled without a
+    // record) it presents a validly signed record of another identity
+    let lying_peer: Option<usize> = if ctx.tape.choose(3) == 0 { Some(1 + ctx.tape.choose((n_honest - 1) as u32) as usize) } else { None };
+    let lie_kind = ctx.tape.choose(4);
     w.profile.jitter_ms = *ctx.tape.pick(&[0u32, 3]);
     ctx.ev(format!("cfg honest={n_honest} x_running={x_running} knowledge={knowledge} seqs={:?} attacker={}", w.nodes.iter().map(|n| n.enr.seq()).collect::<Vec<_>>(), short_id(&adv.id)));
     // registry id -> public key
@@ -339,8 +344,33 @@ async fn c01_async(ctx: &mut Ctx) {
                         w.schedule(0, Ev::Custom(X::AppWhoAreYou { node, wref, enr }));
                     }
                     HandlerOut::Request(from, req) => {
-                        for resp in w.default_response(node, &from, &req, 1) {
+                        let asks_record = matches!(&req.body, RequestBody::FindNode { distances } if distances.as_slice() == [0]);
+                        if lying_peer == Some(node) && asks_record {
+                            // another identity: a third honest node if there is one, else an identity of the adversary
+                            let other = (0..n_honest).find(|j| *j != node && w.node_by_id(&from.node_id) != Some(*j));
+                            let my_addr = w.nodes[node].addr;
+                            let ip = match my_addr.ip() {
+                                IpAddr::V4(v) => v.octets(),
+                                _ => [0; 4],
+                            };
+                            let foreign: Enr = match (lie_kind, other) {
+                                // the other node's genuine record (advertises the other node's address)
+                                (0, Some(j)) => w.nodes[j].enr.clone(),
+                                // a genuine record of the other node that carries no address
+                                (1, Some(j)) => ident::record(ident::RecSpec { ident: w.nodes[j].cfg.ident, seq: w.nodes[j].enr.seq() + 1, ip4: None, ip6: None, pad: 0 }),
+                                // a second identity (keys held by the liar) advertising the liar's own address
+                                (2, _) => ident::record(ident::RecSpec { ident: adv.ident, seq: 2, ip4: Some((ip, my_addr.port())), ip6: None, pad: 0 }),
+                                // a second identity without any address
+                                _ => ident::record(ident::RecSpec { ident: adv.ident, seq: 2, ip4: None, ip6: None, pad: 0 }),
+                            };
+                            ctx.fault("peer_presents_foreign_record");
+                            ctx.ev(format!("t={t} n{node} LIES: answers FINDNODE[0] with the record of {}", short_id(&foreign.node_id())));
+                            let resp = Response { id: req.id.clone(), body: ResponseBody::Nodes { total: 1, nodes: vec![foreign] } };
                             w.schedule(0, Ev::Custom(X::AppRespond { node, to: from.clone(), resp }));
+                        } else {
+                            for resp in w.default_response(node, &from, &req, 1) {
+                                w.schedule(0, Ev::Custom(X::AppRespond { node, to: from.clone(), resp }));
+                            }
                         }
                     }
                     _ => {}
@@ -361,7 +391,7 @@ fn note_delivery<Y>(ledger: &mut ProofLedger, w: &HWorld<Y>, to: usize, src: Soc
 }
 
 /// Build the forged handshake for `plan` answering the victim's WHOAREYOU (`challenge_data`).
-fn craft_handshake(ctx: &mut Ctx, w: &HWorld<X>, adv: &Adversary, plan: &Plan, challenge_data: &[u8], src: SocketAddr, genuine: &BTreeMap<usize, (Vec<u8>, Vec<u8>)>) -> Option<Vec<u8>> {
+pub fn craft_handshake<Y>(ctx: &mut Ctx, w: &HWorld<Y>, adv: &Adversary, plan: &Plan, challenge_data: &[u8], src: SocketAddr, genuine: &BTreeMap<usize, (Vec<u8>, Vec<u8>)>) -> Option<Vec<u8>> {
     let v = &w.nodes[plan.victim];
     let x = &w.nodes[plan.claimed];
     let victim_contact = NodeContact::try_from_enr(v.enr.clone(), IpMode::default()).ok()?;
